@@ -115,6 +115,25 @@ func init() {
 		l.DelItem(i)
 		return item, nil
 	}, 0, "pop([index]) -> item -- remove and return item at index (default last)")
+	ListType.Dict["remove"] = MustNewMethod("remove", func(self Object, args Tuple) (Object, error) {
+		l := self.(*List)
+		var value Object
+		err := UnpackTuple(args, nil, "remove", 1, 1, &value)
+		if err != nil {
+			return nil, err
+		}
+		for i, item := range l.Items {
+			eq, err := Eq(item, value)
+			if err != nil {
+				return nil, err
+			}
+			if eq == True {
+				l.DelItem(i)
+				return None, nil
+			}
+		}
+		return nil, ExceptionNewf(ValueError, "list.remove(x): x not in list")
+	}, 0, "remove(value) -- remove first occurrence of value")
 }
 
 // Type of this List object
